@@ -354,6 +354,33 @@ async fn main(plan: Plan) -> Outcome {
         let _ = tokio::time::timeout(Duration::from_secs(120), session.refresh_metadata()).await;
         world::sleep_ns(20 * SEC).await;
     }
+    // A node's token ownership changes (nodetool move; a node first listed without tokens
+    // that then gets some): same members, same labels, another ring. The client learns of
+    // it through a refresh.
+    if tape::chance("c12:tokens_moved", 1, 4) {
+        let victim = tape::choose("c12:moved_node", plan.nodes as u64) as usize;
+        {
+            let mut w = world::world();
+            let vnodes = tape::range("c12:moved_vnodes", 1, 6) as usize;
+            let tokens: Vec<i64> = (0..vnodes)
+                .map(|_| {
+                    let hi = tape::choose("c12:token_hi", 1 << 20) as i64 - (1 << 19);
+                    let lo = tape::choose("c12:token_lo", 1 << 20) as i64;
+                    (hi << 44) | (lo << 24) | (victim as i64 + 1) | 0x800
+                })
+                .collect();
+            if !w.cluster.nodes[victim].tokens.is_empty() {
+                w.cluster.nodes[victim].tokens = tokens;
+                w.fault(Fault::Topology);
+                w.probe("node_tokens_moved");
+                let ip = w.cluster.nodes[victim].ip;
+                w.broadcast_event("TOPOLOGY_CHANGE", crate::wire::body_event_topology("MOVED_NODE", ip, 9042));
+            }
+        }
+        world::sleep_ns(3 * SEC).await;
+        let _ = tokio::time::timeout(Duration::from_secs(120), session.refresh_metadata()).await;
+        world::sleep_ns(20 * SEC).await;
+    }
     let mut prepared = Vec::new();
     for ks in KSS {
         for t in stmt_texts(ks) {
